@@ -26,7 +26,7 @@ func vpC09Refl(ti int) {
 	if f != 0 {
 		vpSetField(x, f, shape, 'a')
 	}
-	cell := vpTypeNames[ti] + "." + fields[f].Name + "/" + string([]byte{'0' + byte(shape)})
+	cell := vpTypeNames[ti] + "." + fields[f].Name + "/" + string([]byte{'0' + byte(shape/10), '0' + byte(shape%10)})
 	vpAssert("reflexive/"+cell, ItemsEqual(x, x))
 	c := vpCloneItem(x)
 	vpAssert("copy-equal/"+cell, ItemsEqual(x, c) && ItemsEqual(c, x))
@@ -189,7 +189,7 @@ func vpC09Chg(ti int, only []string) {
 	differs = !vpSameField(x, probe, f)
 	vpEvents(true)
 	vpAssume(differs)
-	cell := vpTypeNames[ti] + "." + name + "/" + string([]byte{'0' + byte(shape)})
+	cell := vpTypeNames[ti] + "." + name + "/" + string([]byte{'0' + byte(shape/10), '0' + byte(shape%10)})
 	vpAssert("changed-unequal/"+cell, !ItemsEqual(x, y))
 	vpAssert("changed-unequal-rev/"+cell, !ItemsEqual(y, x))
 	vpReach("end")
